@@ -372,3 +372,7 @@ func OnSample(f func(min, max int) int) {}
 // the solver (natively they come from the recorded tape).
 func SetClock(unix int64)     {}
 func OnIntn(f func(n int) int) {}
+
+// OnRandBytes lets a harness supply the bytes csrand.Bytes returns under the solver
+// (natively they come from the recorded tape).
+func OnRandBytes(f func(n int) []byte) {}
